@@ -87,11 +87,21 @@ def worker_main(pid, tier, seed, shard_file, out_file):
 
 
 # ---------------------------------------------------------------- parent
-def run_workers(pid, tier, seed, cases, jobs, timeout):
+def run_workers(pid, tier, seed, cases, jobs, timeout, block=1):
     work = os.path.join(ROOT, ".work", f"{pid}-{os.getpid()}")
     os.makedirs(work, exist_ok=True)
     jobs = max(1, min(jobs, len(cases)))
-    shards = [cases[i::jobs] for i in range(jobs)]
+    # Locality-preserving sharding: contiguous blocks of neighbouring cases
+    # are dealt round-robin, so that configurations which differ in a single
+    # parameter run one after the other in the SAME worker process -- this is
+    # what exposes cross-talk through process-global state (memo tables,
+    # shared sequences) to every check, not only to C15.
+    block = max(1, int(block))
+    shards = [[] for _ in range(jobs)]
+    for b, start in enumerate(range(0, len(cases), block)):
+        shards[b % jobs] += cases[start:start + block]
+    shards = [sh for sh in shards if sh]
+    jobs = len(shards)
     procs = []
     env = dict(os.environ)
     env["VERIF_SEED"] = str(seed)
@@ -220,7 +230,8 @@ def main(argv=None):
                 capture_output=True, text=True, timeout=3000)
             return json.loads(p.stdout.strip().splitlines()[-1])
         ov_fut = pool.submit(_ov)
-    reports = run_workers(pid, tier, seed, cases, a.jobs, timeout)
+    reports = run_workers(pid, tier, seed, cases, a.jobs, timeout,
+                          getattr(mod, "BLOCK", 1))
     m = merge(reports)
     if ov_fut is not None:
         try:
